@@ -283,13 +283,13 @@ func (r *Report) Finish(c *Ctx, loadErr error) int {
 		"rule": "one obligation per (rule, construct) instance found in the type-checked SSA of /repo's working tree; " +
 			"evaluations = elementary cases behind them (paths walked, table entries, call sites); " +
 			"distinct_nontrivial = obligations discharged on a real construct with a source position",
-		"obligations":  obligations,
-		"discharged":   discharged,
-		"samples":      samples,
-		"per_rule":     perRule,
+		"obligations":            obligations,
+		"discharged":             discharged,
+		"samples":                samples,
+		"per_rule":               perRule,
 		"known_findings_printed": nknown,
-		"notes":        r.Notes,
-		"arch":         r.Arch,
+		"notes":                  r.Notes,
+		"arch":                   r.Arch,
 	}
 	if c != nil {
 		cov["analysed"] = map[string]int{"packages": c.stats.packages, "functions_in_scope": c.stats.functions,
